@@ -113,3 +113,35 @@ def full_core_map_reaches_every_cell_of_the_hexagon(ctx, kind):
     ctx.check("cell of the hexagon has a non-negative text position", ok)
     back = m._getIJFromColRow(col, line)
     ctx.check("the position reads back to the cell", AND(back[0] == ci, back[1] == cj))
+
+
+def in_hexagon(i, j, s):
+    return AND(abs(i) <= s, abs(j) <= s, abs(i + j) <= s)
+
+
+@harness("C18", bounds="full-core flats-up map: all map sizes _ijMax >= 1, all corner cut-offs 0 <= off <= _ijMax, all "
+                       "text lines of the map (symbolic, unbounded)", stubs=STUBS)
+def full_flats_up_line_starts_at_the_leftmost_cell_of_its_row(ctx):
+    m = asciimaps.AsciiMapHexFullFlatsUp()
+    s = ctx.int("ijMax", 1)
+    off = ctx.int("offCorner", 0)
+    ctx.assume(off <= s)
+    m._ijMax, m._asciiLinesOffCorner = s, off
+    l = ctx.int("l", 0)
+    ctx.assume(l + off <= 4 * s)                 # the map has 4*ijMax + 1 rows before corners are cut
+    i, j = m._getIJBaseByAsciiLine(l)
+    # geometry of a flats-up hexagon of radius s: rows are lines of constant i + 2j, counted from the bottom (-2s)
+    row = i + 2 * j
+    want = (l + off) - 2 * s
+    if ctx.canary:
+        want = want + ITE(AND(s == 3, off == 1, l == 4), 1, 0)
+    ctx.check_eq("text line l (after the cut-off) is the row i + 2j = l + off - 2*ijMax", row, want)
+    # up to the upper-left corner (row <= ijMax) a line starts at the leftmost cell of the hexagon on that row; above
+    # it the text keeps starting under the same two columns (placeholders fill the cut-away corner)
+    below = l + off <= 3 * s
+    ctx.check("up to the upper-left corner the first cell of a line lies inside the hexagon",
+              IMPLIES(below, in_hexagon(i, j, s)))
+    ctx.check("... and is the leftmost one: two columns further left is outside",
+              IMPLIES(below, NOT(in_hexagon(i - 2, j + 1, s))))
+    ctx.check("above the corner the line still starts in one of the two leftmost columns",
+              IMPLIES(NOT(below), OR(i == -s, i == -s + 1)))
